@@ -396,6 +396,9 @@ func runC09(c *Ctx, tier string) {
 	runVamEncodingCoverage(c, "C09-X2")
 	runVectorizeDeclinesFilter(c, "C09-G3")
 	runSingleFieldShape(c, "C09-G4")
+	runVectorSumExact(c, "C09-S1")
+	runVectorCountAccumulates(c, "C09-A1")
+	runVectorizeDeclinesSliced(c, "C09-G5")
 }
 
 func init() {
